@@ -113,7 +113,7 @@ def gen_plan(rng, index, tier):
             kw["level"] = rng.choice(["reactor", "core", "assembly", "block", "component"])
             kw["param"] = rng.choice(["vP0", "vP1", "vP2", "vF0", "vI0", "vS0", "vVol"])
             # value kinds the database accepts without ado; what it refuses or normalises is C05's subject
-            kw["vkind"] = rng.choice(["float", "int", "arr", "arr2", "none", "all-arr", "all-float", "all-str", "all-bool"])
+            kw["vkind"] = rng.choice(["float", "int", "arr", "arr2", "none", "all-arr", "all-float", "all-str", "all-bool", "some-arr2"])
             if kw["param"] == "vF0":
                 kw["vkind"] = rng.choice(["float", "all-float"])
             if rng.random() < 0.04:
@@ -238,6 +238,9 @@ def op_setp(d, st, actor):
     kind = st["vkind"]
     o = objs[st["idx"] % len(objs)]
     # one value kind per (class, parameter) for the whole run: mixed kinds are C05's subject
+    some = kind == "some-arr2"
+    if some:
+        kind = "arr2"
     have = d.kinds.setdefault((type(o).__name__, st["param"]), kind)
     base = lambda k: k[4:] if k.startswith("all-") else k  # noqa: E731
     if kind != "none" and base(have) != base(kind):
@@ -247,7 +250,13 @@ def op_setp(d, st, actor):
             d.kinds[(type(o).__name__, st["param"])] = kind
     if kind == "none" and base(have) in ("str", "bool"):
         return  # str/bool collections with unset entries are refused at write time (C05's subject)
-    if kind.startswith("all-"):
+    if some and kind == "arr2":
+        # every other object of that class holds a 2-D value, the rest nothing: the ragged route, several entries
+        cls = type(o)
+        for j, x in enumerate(y for y in objs if type(y) is cls):
+            if j % 2 == 0:
+                x.p[st["param"]] = _value("arr2", st["u"], j)
+    elif kind.startswith("all-"):
         # every object of that class gets a value of the same shape
         cls = type(o)
         for j, x in enumerate(y for y in objs if type(y) is cls):
